@@ -850,3 +850,18 @@ M('C18', 'c18-phase-finished-notified-before-cleared', 'openhtf/core/test_state.
   "      self.running_phase_state = None\n      self._running_test_api = None\n      self.notify_update()  # Phase finished.\n",
   "      self.notify_update()  # Phase finished.\n      self.running_phase_state = None\n      self._running_test_api = None\n",
   'the phase-finished notification is issued before the running phase is cleared')
+
+
+# ---------------------------------------------------------------- round 7
+M('C19', 'c19-record-message-reused', 'openhtf/util/logs.py',
+  "      message = self.format(record)\n",
+  "      message = getattr(record, 'message', None)\n      if message is None:\n        message = self.format(record)\n",
+  'the record handler reuses record.message as built by an earlier handler (before the MAC filter ran)')
+M('C12', 'c12-exception-logged-before-outcome-stored', 'openhtf/core/phase_executor.py',
+  "    self._phase_execution_outcome = PhaseExecutionOutcome(ExceptionInfo(*args))\n    self._log_exception('Phase %s raised an exception', self._phase_desc.name)\n",
+  "    self._log_exception('Phase %s raised an exception', self._phase_desc.name)\n    self._phase_execution_outcome = PhaseExecutionOutcome(ExceptionInfo(*args))\n",
+  'the exception of a body is logged before its outcome is stored (a slow handler turns it into a time-out)')
+M('C09', 'c09-unset-dimensioned-value-read-in-details', 'openhtf/core/test_state.py',
+  "      message.append(f'  measured_value: {measurement.measured_value}')\n",
+  "      message.append(f'  measured_value: {measurement.measured_value.value}')\n",
+  'outcome details read .value of a dimensioned measurement that may never have been set')
